@@ -548,7 +548,16 @@ def run_param(ctx, R, pname, nparams):
     # ---- phase K: one directed case per finding known on the unchanged tree (known_findings.jsonl), so that each
     # finding is re-observed (or seen repaired) by every run independently of the random choices
     KNOWN_DIRECTED = [
+        # repaired (fix: commits 9ed0e8d, 474805c): the classes stay directed and are judged strictly
         ("exp_dig", (8, 12, 16, 18, 24, 48), None, "CYC", dict(e=3)),
+        ("exp_dig", (8, 12, 16, 18, 24, 48), None, "CYC", dict(e=6)),
+        ("exp_dig", (8, 12, 16, 18, 24, 48), None, "CYC", dict(e=7)),
+        ("exp_dig", (8, 12, 16, 18, 24, 48), None, "CYC", dict(e=11)),
+        ("exp_dig", (8, 12, 16, 18, 24, 48), None, "CYC", dict(e=27)),
+        ("exp_dig", (8, 12, 16, 18, 24, 48), None, "CYC", dict(e="random-naf+1")),
+        ("exp_dig", (12,), None, "ordr", dict(e=3, fn="gt_exp_dig")),
+        ("exp_dig", (12,), None, "ordr", dict(e=27, fn="gt_exp_dig")),
+        ("exp_dig", (12,), None, "ordr", dict(e="random-naf+1", fn="gt_exp_dig")),
         ("test_cyc", (12, 18, 24, 48), None, "zero", {}),
         ("exp", (12, 18, 24, 48), None, "zero", dict(e=5)),
         ("pck", (12, 18, 24, 48), None, "one", {}),
@@ -559,8 +568,12 @@ def run_param(ctx, R, pname, nparams):
         ("frb", (48,), "SM9_P256", "rnd", dict(i=1)),
         ("conv_cyc", (48,), "SM9_P256", "rnd", {}),
         ("test_cyc", (48,), "SM9_P256", "cyc", dict(x=1)),
+        ("exp_cyc_sim", (12,), None, "ordr", dict(e12=(5, 7))),
         ("exp_cyc_sim", (12,), None, "ordr", dict(e12=(5, -7))),
         ("exp_cyc_sim", (12,), None, "ordr", dict(e12=(-5, 7))),
+        ("exp_cyc_sim", (12,), None, "ordr", dict(e12=(-5, -7))),
+        ("exp_cyc_sim", (12,), None, "ordr", dict(e12="random-pn")),
+        ("exp_cyc_sim", (12,), None, "ordr", dict(e12="random-np")),
         ("back_cyc", (54,), None, "one", dict(keep=True)),
     ]
     k = 0
@@ -1184,6 +1197,11 @@ class Handlers(object):
         o = T.objs(d)
         e, ecls = self.exps(d, dig=True)
         e = self.force.get("e", e)
+        if e == "random-naf+1":
+            n = self.rng.randrange(3, 65)
+            e = (3 << (n - 2)) | self.rng.getrandbits(n - 2)      # leading bits 11: the NAF is one digit longer
+        if "fn" in self.force and R.has(self.force["fn"]):
+            fn = self.force["fn"]                                  # dispatch macro of the pc layer (gt_exp_dig)
         e &= (1 << 64) - 1
         if e and (3 * e).bit_length() == e.bit_length() + 2:
             ecls = "naf+1"          # the non-adjacent form is one digit longer than the binary expansion
@@ -1269,7 +1287,9 @@ class Handlers(object):
         e1, c1 = self.exps(d)
         e2, c2 = self.exps(d)
         if "e12" in self.force:
-            e1, e2 = self.force["e12"]
+            e1, e2 = self.force["e12"] if not isinstance(self.force["e12"], str) else (
+                (rng.randrange(1, T.r), -rng.randrange(1, T.r)) if self.force["e12"] == "random-pn"
+                else (-rng.randrange(1, T.r), rng.randrange(1, T.r)))
         sg = ("n" if e1 < 0 else ("z" if e1 == 0 else "p")) + ("n" if e2 < 0 else ("z" if e2 == 0 else "p"))
         self.tok.append(sg)
         desc.update({"a": [hx(x) for x in a], "b": [hx(x) for x in b], "e1": hx(e1), "e2": hx(e2)})
